@@ -12,6 +12,7 @@ import Melda.Flatten
 import Melda.Lru
 import Melda.Pack
 import Melda.Adapter
+import Melda.Backends
 namespace Melda
 
 /-- the real hash -/
@@ -31,6 +32,13 @@ def hexDecode : Str → Option Bytes
   | _ => none
 
 def hexEncode (b : Bytes) : Str := b.flatMap hexByte
+
+def sortStrsD (l : List Str) : List Str :=
+  l.foldl (fun acc s =>
+    let rec ins : List Str → List Str
+      | [] => [s]
+      | x :: xs => if strLt s x then s :: x :: xs else x :: ins xs
+    ins acc) []
 
 def revFields (r : Rev) : Str :=
   natStr r.index ++ '|' :: (r.digest ++ '|' :: (r.render ++ '|' :: (if r.isCharcode then ['1'] else ['0'])))
@@ -87,32 +95,93 @@ def treeOps (ops : List JVal) : Str :=
     | _ => (t, out ++ [S "badop"])
   joinWith [';'] (ops.foldl step (RevTree.empty, [])).2
 
-/-- the write-once key/value contract (`Melda.Adapter.KVSpec`) behind the `kv` channel -/
-def kvRun (ops : List JVal) : List Str :=
-  let step := fun (st : KVSpec × List Str) (o : JVal) =>
-    let (kv, out) := st
+/-- standard base64 (with padding), as the SQLite adapter stores values -/
+def b64Char (n : Nat) : Char :=
+  if n < 26 then Char.ofNat (65 + n) else if n < 52 then Char.ofNat (97 + n - 26)
+  else if n < 62 then Char.ofNat (48 + n - 52) else if n = 62 then '+' else '/'
+
+def base64 : Bytes → Str
+  | [] => []
+  | [a] => [b64Char (a.toNat / 4), b64Char ((a.toNat % 4) * 16), '=', '=']
+  | [a, b] => [b64Char (a.toNat / 4), b64Char ((a.toNat % 4) * 16 + b.toNat / 16), b64Char ((b.toNat % 16) * 4), '=']
+  | a :: b :: c :: t =>
+    b64Char (a.toNat / 4) :: b64Char ((a.toNat % 4) * 16 + b.toNat / 16) ::
+    b64Char ((b.toNat % 16) * 4 + c.toNat / 64) :: b64Char (c.toNat % 64) :: base64 t
+
+def bresStr (r : BRes Bytes) : Str := match r with | .ok d => hexEncode d | .err => S "err" | .panic => S "panic"
+
+/-- one backend model behind the `kv` channel, with what its raw layout looks like -/
+structure KvRunner where
+  β : Type
+  init : β
+  ops : BackendOps β
+  dump : β → Str
+
+def idCodec : ByteCodec := ⟨id, some⟩
+/-- the SQLite text codec: real base64 on the way in; values are never decoded by the model's
+    reads (it keeps the bytes next to the text) -/
+def sqlCodecPlain : TextCodec := ⟨fun d => hexEncode d, fun t => hexDecode t⟩
+
+def isPrefixOf (p s : Str) : Bool := s.take p.length = p
+
+def kvRunner (backend : Str) : KvRunner :=
+  let wrapped := backend.contains '+'
+  let sfx : Str := if KVSpec.isSuffix (S "+flate") backend then S ".flate"
+                   else if KVSpec.isSuffix (S "+brotli") backend then S ".brotli" else []
+  let sortRows := fun (rows : List (Str × Str)) =>
+    rows.foldl (fun acc r =>
+      let rec ins : List (Str × Str) → List (Str × Str)
+        | [] => [r]
+        | x :: xs => if strLt r.1 x.1 then r :: x :: xs else x :: ins xs
+      ins acc) []
+  let showRows := fun (withVal : Bool) (rows : List (Str × Str)) =>
+    (JVal.arr ((sortRows rows).map (fun r => if withVal then .arr [jstr r.1, jstr r.2] else .arr [jstr r.1]))).render
+  if isPrefixOf (S "fs") backend then
+    { β := FsBackend, init := {}, ops := if wrapped then wrapOps idCodec sfx fsOps else fsOps,
+      dump := fun b => showRows (!wrapped) (b.files.items.map (fun p => (p.1, hexEncode p.2))) }
+  else if isPrefixOf (S "sqlitemem") backend then
+    { β := SqlBackend, init := {}, ops := if wrapped then wrapOps idCodec sfx (sqlOps sqlCodecPlain) else sqlOps sqlCodecPlain,
+      dump := fun _ => S "[]" }
+  else if isPrefixOf (S "sqlite") backend then
+    { β := SqlBackend, init := {}, ops := if wrapped then wrapOps idCodec sfx (sqlOps sqlCodecPlain) else sqlOps sqlCodecPlain,
+      dump := fun b => showRows (!wrapped) (b.rows.map (fun r => (r.1, match hexDecode r.2 with | some d => base64 d | none => S "?"))) }
+  else
+    { β := MemBackend, init := {}, ops := if wrapped then wrapOps idCodec sfx memOps else memOps,
+      dump := fun _ => S "[]" }
+
+/-- the `kv` channel: the backend's model and the write-once contract (`KVSpec`) are run side by
+    side; where the contract defines the answer they must agree (a disagreement is printed) -/
+def kvRun (backend : Str) (ops : List JVal) : List Str :=
+  let R := kvRunner backend
+  let step := fun (st : R.β × KVSpec × List Str) (o : JVal) =>
+    let (b, kv, out) := st
+    let agree := fun (m : Str) (spec : Str) => if m = spec then m else S "MODEL-SPEC-DISAGREE model " ++ m ++ S " spec " ++ spec
     match o with
     | .arr [.str k, .str key, .str hx] =>
       if k = S "w" then
         match hexDecode hx with
-        | some d => (kv.write key d, out ++ [S "ok"])
-        | none => (kv, out ++ [S "badhex"])
-      else (kv, out ++ [S "bad"])
+        | some d => (R.ops.write b key d, kv.write key d, out ++ [S "ok"])
+        | none => (b, kv, out ++ [S "badhex"])
+      else (b, kv, out ++ [S "bad"])
     | .arr [.str k, .str key] =>
       if k = S "r" then
-        (kv, out ++ [match kv.read key with | some d => hexEncode d | none => S "err"])
+        (b, kv, out ++ [agree (bresStr (R.ops.read b key 0 0)) (match kv.read key with | some d => hexEncode d | none => S "err")])
       else if k = S "l" then
-        (kv, out ++ [(JVal.arr ((kv.list key).map jstr)).render])
-      else (kv, out ++ [S "bad"])
+        (b, kv, out ++ [agree (JVal.arr ((sortStrsD (R.ops.list b key)).map jstr)).render (JVal.arr ((kv.list key).map jstr)).render])
+      else (b, kv, out ++ [S "bad"])
     | .arr [.str k, .str key, off, len] =>
       if k = S "rr" then
         match asNat? off, asNat? len with
-        | some o, some l => (kv, out ++ [match kv.readRange key o l with | some d => hexEncode d | none => S "err"])
-        | _, _ => (kv, out ++ [S "bad"])
-      else (kv, out ++ [S "bad"])
-    | .arr [.str k] => if k = S "reopen" then (kv, out ++ [S "ok"]) else (kv, out ++ [S "bad"])
-    | _ => (kv, out ++ [S "bad"])
-  (ops.foldl step (KVSpec.empty, [])).2
+        | some o, some l =>
+          (b, kv, out ++ [agree (bresStr (R.ops.read b key o l)) (match kv.readRange key o l with | some d => hexEncode d | none => S "err")])
+        | _, _ => (b, kv, out ++ [S "bad"])
+      else (b, kv, out ++ [S "bad"])
+    | .arr [.str k] =>
+      if k = S "reopen" then (b, kv, out ++ [S "ok"])
+      else if k = S "dump" then (b, kv, out ++ [R.dump b])
+      else (b, kv, out ++ [S "bad"])
+    | _ => (b, kv, out ++ [S "bad"])
+  (ops.foldl step (R.init, KVSpec.empty, [])).2.2
 
 def cmpName : Ordering → Str | .lt => S "lt" | .eq => S "eq" | .gt => S "gt"
 
@@ -216,7 +285,7 @@ def answer (req : JVal) : Str :=
       | _ => S "badreq"
     else if op = S "kv" then
       match args with
-      | [_, .arr ops] => joinWith [';'] (kvRun ops)
+      | [.str backend, .arr ops] => joinWith [';'] (kvRun backend ops)
       | _ => S "badreq"
     else S "unknown-op"
   | _ => S "badreq"
